@@ -1,1 +1,228 @@
-(* stub: to be written by group Csv *)
+(* summary.rs: get_summary_range_delta_indicies, make_simple_summary_txs,
+   make_annual_gains_summary_txs, make_summary_txs (one security), on the
+   delta list of the bookkeeping model (Model/DeltaList.v).  Definitions only. *)
+From Coq Require Import List NArith ZArith QArith Qcanon Bool.
+From ACB Require Import Base.Outcome Base.QcExtra Base.Arith Model.Tx Model.Ledger Model.Sfl
+     Model.DeltaList Model.App Model.Gains.
+Import ListNotations.
+Local Open Scope Z_scope.
+
+(* Date::from_calendar_date(y, January, 1) as a day number (day 1 = 0001-01-01):
+   Hinnant's days_from_civil for month 1, day 1 *)
+Definition jan1 (y : Z) : Z :=
+  let y' := y - 1 in
+  let era := y' / 400 in
+  let yoe := y' - era * 400 in
+  let doe := yoe * 365 + yoe / 4 - yoe / 100 + 306 in
+  era * 146097 + doe - 306 + 1.
+
+Definition d_sd (d : delta) : Z := t_sd (d_tx d).
+(* TxDelta::is_superficial_loss *)
+Definition is_sfl_delta (d : delta) : bool :=
+  match d_sfl d with
+  | Some i => negb (Qceqb (sf_amount i) 0)
+  | None => false
+  end.
+
+(* ---- get_summary_range_delta_indicies ---- *)
+(* step 1: index of the latest delta settled on or before the date *)
+Fixpoint latest_in_range (latest : Z) (ds : list delta) (i : nat) (acc : option nat) : option nat :=
+  match ds with
+  | [] => acc
+  | d :: r => if latest <? d_sd d then acc else latest_in_range latest r (S i) (Some i)
+  end.
+(* step 2: the first superficial loss after that index *)
+Definition first_sfl_after (idx : nat) (ds : list delta) : option delta :=
+  find is_sfl_delta (skipn (S idx) ds).
+(* step 3: going back from idx; [l] lists (index, delta) from idx down to 0 *)
+Fixpoint back_scan (first_day : Z) (l : list (nat * delta)) : option nat :=
+  match l with
+  | [] => None
+  | (i, d) :: r =>
+      if d_sd d <? first_day then Some i
+      else back_scan (if is_sfl_delta d then d_sd d - window_days else first_day) r
+  end.
+Fixpoint indexed {T} (i : nat) (l : list T) : list (nat * T) :=
+  match l with
+  | [] => []
+  | x :: r => (i, x) :: indexed (S i) r
+  end.
+
+Record ranges : Type := { rg_latest : nat; rg_summarizable : option nat }.
+
+Definition summary_ranges (latest : Z) (ds : list delta) : option ranges :=
+  match latest_in_range latest ds 0 None with
+  | None => None
+  | Some idx =>
+      match nth_error ds idx with
+      | None => None      (* unreachable: idx is an index of ds *)
+      | Some dl =>
+          match first_sfl_after idx ds with
+          | Some s =>
+              let first_day := d_sd s - window_days in
+              if first_day <=? d_sd dl then
+                Some {| rg_latest := idx;
+                        rg_summarizable := back_scan first_day (rev (indexed 0 (firstn (S idx) ds))) |}
+              else Some {| rg_latest := idx; rg_summarizable := Some idx |}
+          | None => Some {| rg_latest := idx; rg_summarizable := Some idx |}
+          end
+      end
+  end.
+
+(* ---- summary transactions of one affiliate ---- *)
+Definition mk_tx (like : tx) (date : Z) (a : action) (af : aff) : tx :=
+  {| t_sec := t_sec like; t_td := date; t_sd := date; t_act := a; t_af := af; t_glob := false; t_ri := 0%N |}.
+
+Section WithArith.
+  Variable A : arith.
+
+  (* make_simple_summary_txs: d is the affiliate's last summarizable delta *)
+  Definition simple_summary (af : aff) (d : delta) : res (list tx) :=
+    let post := d_post d in
+    if Qcltb 0 (s_sh post) then
+      aps <- match s_acb post with
+             | Some acb => gez_div A acb (s_sh post)
+             | None => Ok 0%Qc
+             end ;;
+      Ok [mk_tx (d_tx d) (d_sd d) (Buy (s_sh post) aps 0 1 1) af]
+    else Ok [].
+
+  (* yearly_cap_gains / latest_year_delta over deltas[..=idx] of the affiliate *)
+  Fixpoint yearly_gains (af : aff) (ds : list delta) (acc : list (Z * Qc)) : res (list (Z * Qc)) :=
+    match ds with
+    | [] => Ok acc
+    | d :: r =>
+        if negb (aff_eqb (t_af (d_tx d)) af) then yearly_gains af r acc else
+        let y := year_of_day (d_sd d) in
+        match d_gain d with
+        | Some g =>
+            if Qceqb g 0 then yearly_gains af r acc else
+            let prev := match zlookup y acc with Some v => v | None => 0%Qc end in
+            s <- a_add A prev g ;;
+            yearly_gains af r (zupdate y s acc)
+        | None => yearly_gains af r acc
+        end
+    end.
+
+  Fixpoint insert_year (y : Z * Qc) (l : list (Z * Qc)) : list (Z * Qc) :=
+    match l with
+    | [] => [y]
+    | h :: r => if fst y <=? fst h then y :: l else h :: insert_year y r
+    end.
+  Definition sort_years (l : list (Z * Qc)) : list (Z * Qc) := fold_right insert_year [] l.
+
+  Fixpoint year_sells (like : tx) (af : aff) (base : option Qc) (ys : list (Z * Qc)) : res (list tx) :=
+    match ys with
+    | [] => Ok []
+    | (y, g) :: r =>
+        gl <- (if Qcltb g 0 then
+                 m <- a_mul A g (-(1))%Qc ;; l <- gez_unwrap 61%N m ;; Ok (0%Qc, l)
+               else g' <- gez_unwrap 62%N g ;; Ok (g', 0%Qc)) ;;
+        amount <- match base with
+                  | Some aps => gez_add A aps (fst gl)
+                  | None => Ok 0%Qc
+                  end ;;
+        rest <- year_sells like af base r ;;
+        Ok (mk_tx like (jan1 y) (Sell 1 amount (snd gl) 1 1 None) af :: rest)
+    end.
+
+  (* make_annual_gains_summary_txs: [ds] = deltas[..=idx], d = deltas[idx],
+     first_year = year of deltas[0] *)
+  Definition annual_summary (af : aff) (first_year : Z) (ds : list delta) (d : delta) : res (list tx) :=
+    ys0 <- (if af_reg af then Ok [] else yearly_gains af ds []) ;;
+    let ys := sort_years ys0 in
+    let post := d_post d in
+    base <- match s_acb post with
+            | Some acb => if Qcltb 0 (s_sh post) then v <- gez_div A acb (s_sh post) ;; Ok (Some v)
+                          else Ok (Some 0%Qc)
+            | None => Ok None
+            end ;;
+    n <- gez_add A (s_sh post) (QcZ (Z.of_nat (length ys))) ;;
+    sells <- year_sells (d_tx d) af base ys ;;
+    let buy := if Qcltb 0 n then
+                 [mk_tx (d_tx d) (jan1 (first_year - 1))
+                        (Buy n (match base with Some v => v | None => 0%Qc end) 0 1 1) af]
+               else [] in
+    Ok (buy ++ sells).
+
+  (* affiliates with their last summarizable delta index, scanning back from idx *)
+  Fixpoint last_idxs (l : list (nat * delta)) (acc : list (aff * nat)) : list (aff * nat) :=
+    match l with
+    | [] => acc
+    | (i, d) :: r =>
+        let af := t_af (d_tx d) in
+        if existsb (fun x => aff_eqb (fst x) af) acc then last_idxs r acc
+        else last_idxs r (acc ++ [(af, i)])
+    end.
+  Fixpoint ins_afi (a : aff * nat) (l : list (aff * nat)) : list (aff * nat) :=
+    match l with
+    | [] => [a]
+    | b :: r => if N.leb (af_id (fst a)) (af_id (fst b)) then a :: l else b :: ins_afi a r
+    end.
+  Definition sort_afis (l : list (aff * nat)) : list (aff * nat) := fold_right ins_afi [] l.
+
+  Fixpoint per_affiliate (annual : bool) (ds : list delta) (dflt : delta) (afs : list (aff * nat))
+    : res (list tx) :=
+    match afs with
+    | [] => Ok []
+    | (af, i) :: r =>
+        let d := nth i ds dflt in
+        one <- (if annual then annual_summary af (year_of_day (d_sd (nth 0 ds dflt))) (firstn (S i) ds) d
+                else simple_summary af d) ;;
+        rest <- per_affiliate annual ds dflt r ;;
+        Ok (one ++ rest)
+    end.
+
+  Fixpoint number_from (i : N) (l : list tx) : list tx :=
+    match l with
+    | [] => []
+    | t :: r => {| t_sec := t_sec t; t_td := t_td t; t_sd := t_sd t; t_act := t_act t; t_af := t_af t;
+                   t_glob := t_glob t; t_ri := i |} :: number_from (i + 1) r
+    end.
+  Definition zero_ri (t : tx) : tx :=
+    {| t_sec := t_sec t; t_td := t_td t; t_sd := t_sd t; t_act := t_act t; t_af := t_af t;
+       t_glob := t_glob t; t_ri := 0%N |}.
+
+  (* an unsummarizable delta re-emitted with an explicit superficial loss *)
+  Definition keep_delta (d : delta) : res tx :=
+    let t := d_tx d in
+    match d_sfl d with
+    | None => Ok t
+    | Some i =>
+        match t_act t with
+        | Sell sh aps com rate crate _ =>
+            Ok {| t_sec := t_sec t; t_td := t_td t; t_sd := t_sd t;
+                  t_act := Sell sh aps com rate crate (Some (sf_amount i, false));
+                  t_af := t_af t; t_glob := t_glob t; t_ri := t_ri t |}
+        | _ => Panic (PanicAssert 60%N)     (* summary.rs:423 "Superficial loss was not sell" *)
+        end
+    end.
+  Fixpoint keep_all (l : list delta) : res (list tx) :=
+    match l with
+    | [] => Ok []
+    | d :: r => t <- keep_delta d ;; rest <- keep_all r ;; Ok (t :: rest)
+    end.
+
+  (* make_summary_txs *)
+  Definition make_summary (latest : Z) (ds : list delta) (annual : bool) : res (list tx) :=
+    match ds with
+    | [] => Ok []
+    | dflt :: _ =>
+        match summary_ranges latest ds with
+        | None => Ok []
+        | Some rg =>
+            let afs := match rg_summarizable rg with
+                       | Some s => sort_afis (last_idxs (rev (indexed 0 (firstn (S s) ds))) [])
+                       | None => []
+                       end in
+            sums <- per_affiliate annual ds dflt afs ;;
+            let sorted := map zero_ri (sort_txs (number_from 0 sums)) in
+            let first_unsum := match rg_summarizable rg with Some s => S s | None => O end in
+            kept <- keep_all (firstn (S (rg_latest rg) - first_unsum) (skipn first_unsum ds)) ;;
+            Ok (sorted ++ kept)
+        end
+    end.
+End WithArith.
+
+(* rows of the original history settling after the date *)
+Definition rows_after (latest : Z) (txs : list tx) : list tx := filter (fun t => latest <? t_sd t) txs.
